@@ -13,12 +13,14 @@ NoRun == [op |-> "none"]
 MCKindSet == {"struct", "enum"}
 MCTypeOptSet(k) == { [DefOpts EXCEPT !.traits = t] : t \in { <<"Deref">>, <<"Deref", "DerefMut">> } }
 MCVarOptSet(c) == { [DefVariant EXCEPT !.style = s] : s \in {"named", "tuple"} }
-\* reference-typed fields only without DerefMut (a `&P` cannot be borrowed mutably)
+\* shared references only without DerefMut (a `&P` cannot be borrowed mutably); exclusive references (`&'static mut P`)
+\* with and without it
 MCFieldSet(c) ==
   { [DefField EXCEPT !.deref = d, !.dmut = m, !.ty = t] :
       d \in BOOLEAN,
       m \in (IF HasTrait(c, "DerefMut") THEN BOOLEAN ELSE {FALSE}),
-      t \in (IF HasTrait(c, "DerefMut") THEN {"P"} ELSE {"P", "ref"}) }
+      t \in (IF \E v \in 1..NVariants(c) : \E i \in FieldIdx(c, v) : c.variants[v].fields[i].ty # "P" THEN {"P"}   \* one reference field at most
+             ELSE IF HasTrait(c, "DerefMut") THEN {"P", "refmut"} ELSE {"P", "ref", "refmut"}) }
 \* bounded instance: in a two-variant enum one variant is the plain `V(P)`
 PlainVar(var) ==
   /\ var.style = "tuple" /\ Len(var.fields) = 1
@@ -70,4 +72,7 @@ Spec == Init /\ [][Next]_vars
 Finished == run # NoRun /\ run.done
 ScanFindsDesignated ==
   Finished => run.found = (IF run.op = "deref" THEN DerefField(cfg, run.v) ELSE DMutField(cfg, run.v))
+\* corpus-only exploration (used where only the configurations are wanted, not the run machine): states in which a
+\* run has begun are not expanded
+CorpusOnly == run = NoRun
 =============================================================================
